@@ -17,7 +17,10 @@ EXHAUSTIVE = {"quick": False, "thorough": False}
 RULE = ("cases = corpus + every timestamp sequence of length <=4 over 0..3 (thorough: <=5 over 0..4) under every "
         "(watermark strategy, late strategy) pair + N random sequences of length 1..12 over domains 4/8/16/40 "
         "(sorted, reversed, shuffled) + a Periodic family (intervals 0 / small / one hour; injected clock readings that stand "
-        "still, advance by interval-1 / interval / interval+1, jump and run backwards) + a DURATION family: max_delay / max_lateness given as a "
+        "still, advance by interval-1 / interval / interval+1, jump and run backwards) + a CLOCK family on the strategies that must ignore the "
+        "processing-time clock (BoundedOutOfOrder with delays 0..1 h, MonotonicAscending, Custom): one wall-clock gap of 0 / 1 / 1999 / 2000 / 2001 ms / "
+        "delay-1 / delay / delay+1 / max(delay, 2 s)+1 / 10 s / 1 h / 50 years / backwards in front of every position (incl. the first event) of 4 "
+        "out-of-order sequences scaled to the delay, and random sequences with a random gap before every event + a DURATION family: max_delay / max_lateness given as a "
         "std Duration that is not a whole number of milliseconds below 2^64 - Duration::MAX, from_secs(u64::MAX), whole seconds whose "
         "milliseconds pass 2^64 (2^64 ms + 384, 2^55 s), the values just below / at / above 2^64 ms, 2^54 s and 2^63 s, sub-millisecond parts "
         "(999_999 ns, 1_000_001 ns, 1 s + 999_999_999 ns) - 22 durations x 7 fixed out-of-order sequences (small and huge timestamps) x "
@@ -37,12 +40,17 @@ TRUSTED = [
     "harness/src/bin/c13.rs, Driver/C13.lean parsing/printing glue, check.py diff",
     "Periodic watermark strategy: the processing-time clock is an input of the model (one reading per offered event, any values); "
     "the harness injects the readings through the cfg(rre_verif) hook watermark::verif_clock (whole milliseconds)",
+    "the harness binary installs a `log` logger that accepts and formats every record up to Trace (harness dependency log = 0.4, the crate the "
+    "repository logs through), so the arguments of every log line on the exercised paths are evaluated, as in a host run with RUST_LOG=trace",
 ]
 ASSUMPTIONS = [
     "timestamps are u64 milliseconds modelled as Nat; saturating_sub = Nat subtraction",
     "a configured Duration (secs: u64, nanos < 10^9) enters the model as the effective delay C13.durMillisU64 secs nanos = `d.as_millis() as u64` "
     "(computed by the driver from the case text; the theorems are parametric in the delay)",
     "event identity = caller-assigned id (StreamEvent.id), unique per case (any text: the harness maps the id text back to the event's position)",
+    "the processing-time clock is not an input of the BoundedOutOfOrder / MonotonicAscending / Custom model (it is of Periodic): the harness varies "
+    "the readings there too (clock family) and the observations must still equal the model's and satisfy C13.runOk; the same for the logging "
+    "configuration (a Trace logger is installed; VERIF_NO_LOGGER=1 runs without one)",
     "source, event_type, data, sequence and tags of an event are not inputs of the model: the harness varies them (decoration family) and the "
     "implementation's observations must still equal the model's and satisfy C13.runOk",
 ]
